@@ -17,7 +17,11 @@ import DclabModel.Lemmas.Copy
   `repack_idempotent_on_data_partial`;
 * `condense_scalar_set`, `condense_no_duplicates`, `condense_values`,
   `old_condense_raises_witness` (F28);
-* `tdms2rtdc_rows`, `tdms2rtdc_sublist`.
+* `tdms2rtdc_rows`, `tdms2rtdc_sublist`, `bulk_features_independent`,
+  `shared_feature_list_loses_features_witness`;
+* `setup_never_touches_input`, `setup_refuses_input_as_output`,
+  `corrected_hits_input_only_literally`, `old_setup_unlinks_input_witness` (F29),
+  `replacing_suffix_hits_input_witness`.
 -/
 namespace DclabModel.C08
 open DclabModel.Copy
@@ -267,6 +271,12 @@ theorem empty_scalar_raises_witness :
     copyRaises wEnv {} { events := [⟨"deform", .ds { rows := [] }⟩] } = true ∧
     copyRaises wEnv {} wUnknown = false := by decide
 
+/-- F33 (repaired): the copy of a feature-less file (empty `events` group, e.g. the export of an
+    empty selection) had no `events` group at all and could not be opened by dclab -/
+theorem old_copy_drops_events_group_witness :
+    eventsGroupCreated wEnv {} {} = false ∧ eventsGroupCreatedFixed wEnv {} {} = true ∧
+    eventsGroupCreatedFixed wEnv { features := .none } {} = false := by decide
+
 /-! ## 4. the tasks apply the copy and change nothing else -/
 
 /-- `dclab-compress` leaves every feature, table, basin and user log as it is (the command logs
@@ -435,5 +445,74 @@ theorem tdms2rtdc_sublist (a b : Bool) (rows : List α) :
 example : tdms2rtdcRows true true [10, 11, 12, 13] = [11, 12] := by decide
 example : tdms2rtdcRows true false [10, 11, 12, 13] = [11, 12, 13] := by decide
 example : tdms2rtdcRows false true [10, 11, 12, 13] = [10, 11, 12] := by decide
+
+/-- bulk conversion: what is exported for a measurement depends on that measurement only -/
+theorem bulk_features_independent (ms : List (List String)) (i : Nat) :
+    (bulkFeatures ms)[i]? = ms[i]? := rfl
+
+/-- a feature list shared across the measurements of a directory loses the features the first
+    measurement lacks (brightfield first, fluorescence second) -/
+theorem shared_feature_list_loses_features_witness :
+    bulkFeaturesShared [["area_cvx", "deform"], ["area_cvx", "deform", "fl1_max", "trace"]]
+      ≠ bulkFeatures [["area_cvx", "deform"], ["area_cvx", "deform", "fl1_max", "trace"]] := by
+  decide
+
+/-! ## 7. the input is never touched, whatever the output is called -/
+
+/-- **for every output name** (no suffix, other suffix, any number of dots, same stem, same
+    directory, …) and every set of existing files: no input file that ends in `.rtdc`/`.tdms`
+    (anything but `.rtdc~`) is among the unlinked paths, the temporary file or the output -/
+theorem setup_never_touches_input (ins : List Path) (out : Path) (ex : Path → Bool)
+    (tp : TaskPaths) (h : setupPaths ins out ex = some tp) :
+    ∀ i, i ∈ ins → i.parts.getLast? ≠ some "rtdc~" →
+      i ∉ tp.unlinked ∧ i ≠ tp.temp ∧ i ≠ tp.out := by
+  intro i hi hlast
+  unfold setupPaths at h
+  simp only at h
+  split at h
+  · cases h
+  · rename_i hnot
+    cases h
+    have h1 : i ≠ correctedOut out := by
+      intro e; apply hnot; rw [← e, List.contains_iff_mem]; exact hi
+    have h2 : i ≠ tempOf (correctedOut out) := by
+      intro e; apply hlast; rw [e]; simp [tempOf]
+    refine ⟨?_, h2, h1⟩
+    simp only [List.mem_append]
+    rintro (h | h)
+    · split at h
+      · simp only [List.mem_singleton] at h; exact h1 h
+      · cases h
+    · split at h
+      · simp only [List.mem_singleton] at h; exact h2 h
+      · cases h
+
+/-- an output that (after the suffix correction) is one of the inputs is refused -/
+theorem setup_refuses_input_as_output (ins : List Path) (out : Path) (ex : Path → Bool)
+    (h : correctedOut out ∈ ins) : setupPaths ins out ex = none := by
+  simp [setupPaths, h]
+
+/-- appending `.rtdc` reaches an input `i = ….rtdc` only if the user literally named the input,
+    with or without its suffix — never through an unrelated name such as `x.compressed` -/
+theorem corrected_hits_input_only_literally (o i : Path) (h : correctedOut o = i) : o = i ∨ (o.dir = i.dir ∧ o.parts = i.parts.dropLast) := by
+  unfold correctedOut at h
+  split at h
+  · exact Or.inl h
+  · right
+    rw [← h]; simp
+
+/-- F29 (repaired): the old helper unlinked the input when the output resolved to it -/
+theorem old_setup_unlinks_input_witness :
+    (⟨[], ["x", "rtdc"]⟩ : Path) ∈
+      (setupPathsOld ⟨[], ["x"]⟩ (fun p => p == ⟨[], ["x", "rtdc"]⟩)).unlinked ∧
+    setupPaths [⟨[], ["x", "rtdc"]⟩] ⟨[], ["x"]⟩ (fun p => p == ⟨[], ["x", "rtdc"]⟩) = none := by
+  decide
+
+/-- replacing the last dotted part instead of appending sends `x.compressed` to the input
+    `x.rtdc`; appending does not -/
+theorem replacing_suffix_hits_input_witness :
+    correctedOutReplacing ⟨[], ["x", "compressed"]⟩ = ⟨[], ["x", "rtdc"]⟩ ∧
+    correctedOut ⟨[], ["x", "compressed"]⟩ = ⟨[], ["x", "compressed", "rtdc"]⟩ ∧
+    correctedOut ⟨[], ["", "hidden"]⟩ = ⟨[], ["", "hidden", "rtdc"]⟩ := by decide
 
 end DclabModel.C08
